@@ -17,22 +17,19 @@
 #include "modules/iauth.h"
 #include <arpa/inet.h>
 
-void *xmalloc(unsigned int size) { void *p = calloc(1, size); if (!p) abort(); return p; }
-uint8_t char_types[256];
+/* The character table and the allocation helpers are the repository's own (src/common.c is linked unmodified); the only thing
+ * it needs from the rest of the core is the logger, used when an allocation fails. */
+struct log_type *log_core;
+void log_message(struct log_type *type, enum log_severity sev, const char *format, ...)
+{
+    (void)type; (void)format;
+    if (sev == LOG_FATAL)
+        abort();
+}
+void module_close_all(void) { }   /* referenced by call_exit_funcs(), which this harness never calls */
 static void my_ctype_init(void)
 {
-    static const char token_chars[] = "abcdefghijklmnopqrstuvwxyz-._#";
-    static const char hex_digits[] = "0123456789abcdef";
-    int ii;
-    for (ii = 0; token_chars[ii] != '\0'; ++ii) {
-        char_types[toupper(token_chars[ii])] = CHAR_TOKEN;
-        char_types[tolower(token_chars[ii])] = CHAR_TOKEN;
-    }
-    for (ii = 0; hex_digits[ii] != '\0'; ++ii) {
-        int val = CHAR_TOKEN | CHAR_XDIGIT | ii;
-        char_types[toupper(hex_digits[ii])] = val;
-        char_types[tolower(hex_digits[ii])] = val;
-    }
+    ctype_init();
 }
 
 static unsigned long n_viol, n_eval, n_accept, n_reject, n_agree;
@@ -465,6 +462,20 @@ static void check_expect(const char *s, unsigned int want_bits, const irc_inaddr
     free(pb); free(addr); free(in);
 }
 
+/* hex digits may be written in either case: a third of the grammar-derived texts are handed over with A-F in capitals */
+static void check_expect_anycase(const char *s, unsigned int want_bits, const irc_inaddr *want_net, int must_accept)
+{
+    char tmp[160];
+    size_t ii;
+    snprintf(tmp, sizeof(tmp), "%s", s);
+    if (rnd() % 3 == 0)
+        for (ii = 0; tmp[ii]; ++ii)
+            if (tmp[ii] >= 'a' && tmp[ii] <= 'f')
+                tmp[ii] = (char)(tmp[ii] - 'a' + 'A');
+    check_expect(tmp, want_bits, want_net, must_accept);
+}
+#define check_expect check_expect_anycase
+
 static void pton_grammar(unsigned long count)
 {
     unsigned long ii;
@@ -552,7 +563,8 @@ static void pton_grammar(unsigned long count)
     }
 }
 
-static const char alphabet[] = "019af:./*";
+#undef check_expect
+static const char alphabet[] = "019afF:./*";
 
 static void pton_strings_rec(char *buf, int pos, int maxlen)
 {
@@ -575,7 +587,7 @@ static const char *seeds[] = {
     "1::2::3", ":1", "1:", "1.2.3", "1.2.3.4/33", "::/0", "::/129", "1:2:3:4:5:6:7::", "::2:3:4:5:6:7:8", "1::8/127",
     "1:2:3:4:5:6:7:1.2.3.4", "::ffff:1.2.3.4/120", "::ffff:10.1.2.0", "64:ff9b::192.0.2.1", "0:0:0:0:0:ffff:1.2.3.4", "::ffff:10.1.2.0/24", "1:2::10.9.8.7", "1.2.3.4/", "1.2.3.4/a", "1.2.*.4", "1..2", ".1.2.3", " 1.2.3.4", "1.2.3.4 ",
     "256.1.1.1", "1.256.1.1", "1.2.3.256", "00000.0.0.1", "1:2:3:4:5:6:7:8:9", "12345::", "g::", "1:2:3:4:5:6:7:8.9", "::1.2.3.4.5",
-    "1.2.3.4.5/8", "::.1.2.3", "1:2:3:4:5:6:7:*", "1:2:3:4:5:6:7:8:*", "1:2:3:4:5:6:7:8/", "::ffff:1.2.3.*", "1.2.3.4.*"
+    "1.2.3.4.5/8", "::.1.2.3", "2001:DB8::/32", "FE80::1/64", "ABCD:EF01:2345:6789:ABCD:EF01:2345:6789", "A:B:*", "::FFFF:1.2.3.4", "1:2:3:4:5:6:7:*", "1:2:3:4:5:6:7:8:*", "1:2:3:4:5:6:7:8/", "::ffff:1.2.3.*", "1.2.3.4.*"
 };
 
 static void pton_mutate(unsigned long count)
